@@ -210,6 +210,23 @@ Theorem C18_sum_is_pointwise_exact_guard : forall ls t,
   val (sum ls) t = sumZ (map (fun l => val l t) ls).
 Proof. exact sum_is_pointwise_tail. Qed.
 Print Assumptions C18_sum_is_pointwise_exact_guard.
+(* mode Sum under the same exact guard (magnitudes of either sign) *)
+Theorem C18_mode_sum_exact_guard : forall ms s0 rest,
+  ms <> [] -> starts ms = s0 :: rest ->
+  forallb (fun m => segs_wf (msegs m)) ms = true -> 0 <= modes_tail ms ->
+  exists r, mode_sum ms = Some r /\
+    mstart r = Some (ts_of (minZ rest s0)) /\
+    forall x, minZ rest s0 <= x ->
+      mode_val r x = sumZ (map (fun m => val (msegs m) (x - mode_st (maxZ rest s0) m)) ms).
+Proof. exact mode_sum_is_pointwise_tail. Qed.
+Print Assumptions C18_mode_sum_exact_guard.
+Theorem C18_mode_sum_no_start_exact_guard : forall ms t,
+  ms <> [] -> starts ms = [] ->
+  forallb (fun m => segs_wf (msegs m)) ms = true -> 0 <= modes_tail ms ->
+  exists r, mode_sum ms = Some r /\ mstart r = None /\
+            val (msegs r) t = sumZ (map (fun m => val (msegs m) t) ms).
+Proof. exact mode_sum_no_start_tail. Qed.
+Print Assumptions C18_mode_sum_no_start_exact_guard.
 (* the float32 guard: every magnitude Sum outputs is bounded by twice the sum of the |magnitudes| of
    its inputs; integer magnitudes with that bound below 2^24 keep float32 addition exact *)
 Theorem C18_sum_magnitudes_bounded : forall ls,
@@ -240,6 +257,21 @@ Theorem C18_machine_arithmetic_mode_shift_sum :
   (forall ms, sum_small ms = true -> mode_sum_w ms = mode_sum ms).
 Proof. split; [exact mode_shift_w_eq|exact mode_sum_w_eq]. Qed.
 Print Assumptions C18_machine_arithmetic_mode_shift_sum.
+Theorem C18_machine_arithmetic_sum : forall ls, forallb lens_ok_b ls = true -> sum_w ls = sum ls.
+Proof. exact sum_w_eq. Qed.
+Print Assumptions C18_machine_arithmetic_sum.
+Theorem C18_sum_code_is_pointwise : forall ls t,
+  forallb lens_ok_b ls = true -> 0 <= sumZ (map tail_level ls) ->
+  val (sum_w ls) t = sumZ (map (fun l => val l t) ls).
+Proof.
+  intros ls t G1 G2. rewrite (sum_w_eq ls G1). apply sum_is_pointwise_tail; [|exact G2].
+  apply forallb_forall. intros l Hl. rewrite forallb_forall in G1. apply (lens_ok_b_spec l (G1 l Hl)).
+Qed.
+Print Assumptions C18_sum_code_is_pointwise.
+Theorem C18_sum_overflow_refuted :
+  exists ls t, forallb segs_wf ls = true /\ forallb segs_nonneg ls = true /\ 0 <= t /\
+               val (sum_w ls) t <> sumZ (map (fun l => val l t) ls).
+Proof. exact sum_overflow_refuted. Qed.
 (* headline for the code-level Shift: translation, for every list and offset inside the guard *)
 Theorem C18_shift_code_is_translation : forall d l t, dur_guard d l = true ->
   val (shift_w d l) t = if t <? 0 then 0 else val l (t - d).
@@ -287,6 +319,25 @@ Theorem C18_args_read_the_same : forall h h', heap_ext h h' ->
   (forall m, (m < List.length (mcells h))%nat -> slice_ok h (snd (mcell h m)) -> read_mode h' m = read_mode h m).
 Proof. intros h h' E. split; [intros s; apply ext_read_slice; exact E|intros m; apply ext_read_mode; exact E]. Qed.
 Print Assumptions C18_args_read_the_same.
+(* the heap model computes the same lists as the value model (Shift) *)
+Theorem C18_shift_own_refines : forall d s h, slice_ok h s ->
+  read_slice (snd (shift_own d s h)) (fst (shift_own d s h)) = shift d (read_slice h s).
+Proof. exact shift_own_refines. Qed.
+Print Assumptions C18_shift_own_refines.
+
+(* headline for Shift on the heap: the result reads as the translated step function AND every
+   location of the entry heap (the argument's array, its spare capacity, its segment objects) is intact *)
+Theorem C18_shift_on_heap : forall d s h t, slice_ok h s -> segs_wf (read_slice h s) = true ->
+  let r := fst (shift_own d s h) in let h' := snd (shift_own d s h) in
+  val (read_slice h' r) t = (if t <? 0 then 0 else val (read_slice h s) (t - d)) /\
+  heap_ext h h' /\ read_slice h' s = read_slice h s.
+Proof.
+  intros d s h t Hok Hwf. cbv zeta. rewrite (shift_own_refines d s h Hok).
+  split; [apply shift_is_translation; exact Hwf|].
+  split; [apply shift_never_writes_args|]. apply ext_read_slice; [apply shift_never_writes_args|exact Hok].
+Qed.
+Print Assumptions C18_shift_on_heap.
+
 (* ---- tables generated from the tree under check (Gen/C18Funcs.v) ---- *)
 Theorem C18_funcs_all_modelled :
   forallb (fun f => match row_for (fst (fst (fst f))) (snd (fst (fst f))) with Some _ => true | None => false end) c18_funcs = true.
@@ -295,6 +346,49 @@ Theorem C18_cut_table_is_model_and_order :
   forallb (fun r => let '(a, b, obs) := r in obs =? cut_compare a b) c18_cut_rows = true /\
   forallb (fun r => let '(a, b, obs) := r in obs =? cut_ref_compare a b) c18_cut_rows = true.
 Proof. split; [exact cut_table_is_model|exact cut_table_is_order]. Qed.
+
+(* ================= headlines, one per clause of the property ================= *)
+
+(* clause "operations commute with reading a segment list as a step function", over whole
+   histories: every expression built from literal lists with Shift and Sum (any depth, any order),
+   evaluated with the library's functions, denotes the function obtained by translating and adding *)
+Theorem C18_timeline_expressions : forall e, twf e -> forall t, val (teval e) t = tden e t.
+Proof. exact timeline_expressions. Qed.
+Print Assumptions C18_timeline_expressions.
+Example C18_nonvacuous_expression :
+  let e := TSum (TShift (-2) (TLit [mkSeg 3 (Some 4); mkSeg (-1) None])) (TShift 3 (TSum (TLit [mkSeg 2 (Some 1)]) (TLit [mkSeg 5 None]))) in
+  twf e /\ teval e = [mkSeg 3 (Some 2); mkSeg (-1) (Some 1); mkSeg 6 (Some 1); mkSeg 4 None].
+Proof. vm_compute. repeat split; try reflexivity; intro H; discriminate H. Qed.
+
+(* clause "... and never modify their arguments": all six list- / mode-returning operations *)
+Theorem C18_never_modify_arguments : forall (g : nat -> nat) (h : heap),
+  (forall d s, heap_ext h (snd (shift_own d s h))) /\
+  (forall d p, heap_ext h (snd (cut_own d p h))) /\
+  (forall ss, heap_ext h (snd (sum_own g ss h))) /\
+  (forall t m, heap_ext h (snd (mode_cut_own g t m h))) /\
+  (forall d m, heap_ext h (snd (mode_shift_own g d m h))) /\
+  (forall ms, heap_ext h (snd (mode_sum_own g ms h))).
+Proof.
+  intros g h.
+  split; [intros; apply shift_never_writes_args|].
+  split; [intros; apply seg_cut_never_writes_args|].
+  split; [intros; apply sum_never_writes_args|].
+  split; [intros; apply mode_cut_never_writes_args|].
+  split; [intros; apply mode_shift_never_writes_args|intros; apply mode_sum_never_writes_args].
+Qed.
+Print Assumptions C18_never_modify_arguments.
+
+(* clause "period predicates decide exactly ... symmetrically": from the cut order to the intervals *)
+Theorem C18_period_predicates : forall p q, period_wf p = true -> period_wf q = true ->
+  (periods_intersect (Some p) (Some q) = true <-> exists x, in_period p x /\ in_period q x) /\
+  (periods_connected (Some p) (Some q) = true <-> exists x, in_closure p x /\ in_closure q x) /\
+  periods_intersect (Some p) (Some q) = periods_intersect (Some q) (Some p) /\
+  periods_connected (Some p) (Some q) = periods_connected (Some q) (Some p).
+Proof.
+  intros p q Hp Hq. split; [apply C18_intersect_iff_common_point; assumption|].
+  split; [apply C18_connected_iff_touch; assumption|]. split; [apply intersect_sym|apply connected_sym].
+Qed.
+Print Assumptions C18_period_predicates.
 
 (* the defects of the pinned commit, kept as theorems about the old definitions *)
 Theorem C18_compare_v0_refuted :
